@@ -8,7 +8,7 @@
    Numbers are exact rationals ([QcNum]); the float rounding, overflow and underflow of the
    implementation are outside every theorem below. *)
 From Coq Require Import QArith Qcanon.
-From Emmet Require Import lib.Base model.Math proofs.MathSpec proofs.MathProofs proofs.MathExtractProofs.
+From Emmet Require Import lib.Base model.Math gen.GenMath proofs.MathSpec proofs.MathProofs proofs.MathExtractProofs proofs.MathTables.
 
 (* ---- the operator-ordering step: on the tokens of a tree of the grammar the priorities denote
    ('+ -' < '*' < '/ \' <= prefix '-', parentheses add 10), order_tokens yields the postfix code *)
@@ -81,6 +81,27 @@ Theorem C19_extract_wf :
     balanced (text_slice text a b).
 Proof. exact extract_wf. Qed.
 Print Assumptions C19_extract_wf.
+
+(* ---- TIE: the constants of the model are the constants of the code.  The math_* tables are
+   regenerated from the imported emmet modules on every run (harness/gen_math.py): operator, sign and
+   white-space character sets (over all code points), keys of ops1/ops2, priorities built by op1/op2,
+   ParserState bits, the nullary token, and sample applications of every ops1/ops2 entry *)
+Theorem C19_tables_tie :
+  (forall c, is_operator c = mem c math_operator_chars) /\
+  (forall c, is_sign c = mem c math_sign_chars) /\
+  (forall c, is_negative_sign c = mem c math_negative_sign_chars) /\
+  (forall c, is_white_space c = mem c math_white_space_chars) /\
+  (forall c, is_space c = mem c math_space_chars) /\
+  (forall NS c, has_key (ops2 NS c) = mem c math_ops2_keys) /\
+  (forall NS c, has_key (ops1 NS c) = mem c math_ops1_keys) /\
+  forallb (prio_row_ok mk_op2) math_op2_priorities = true /\
+  forallb (prio_row_ok mk_op1) math_op1_priorities = true /\
+  math_parser_state_bits = [PS_Primary; PS_Operator; PS_LParen; PS_RParen; PS_Sign; PS_Nullary] /\
+  math_nullary = (true, 0%Z, prio_of RNull) /\
+  forallb sample2_ok math_ops2_samples = true /\
+  forallb sample1_ok math_ops1_samples = true.
+Proof. exact math_tables_tie. Qed.
+Print Assumptions C19_tables_tie.
 
 (* ---- non-vacuity *)
 (* "2 * -3 + 6/-2" is well-formed, covered, and evaluates to -9 *)
